@@ -437,6 +437,12 @@ def main():
         add("R19.b", "other-script|" + fn, "bin/" + fn, "%d commands, none writes `current`" % len(c2), not bad, "writes current: %s" % bad)
     add("R19.b", "floor|other-scripts", "bin/", "%d sibling shell scripts analysed" % others, others >= 5, "")
 
+    # ---- R19.k: the lock file is not removed under a running newpolicy.sh
+    rule("R19.k", "No script under bin/ can remove policies/LOCK: no rm / mv / unlink names it, and no destructive find (-delete, -exec rm) starts at the policies directory, reaches its entries and lacks `! -name LOCK` (variables replaced by every value the script assigns, incl. `for V in words`). flock is held on the open file, not on the name: once the file is unlinked the next newpolicy.sh creates and locks a new one while the first still works on the database. (The mtime of LOCK is the end of the last processing run, so age is no protection after a quiet period.)")
+    for f in lockdir_facts("policylock"):
+        add("R19.k", "policy-lock-kept|bin/" + f["script"], "bin/" + f["script"], "%d simple commands, none can remove policies/LOCK" % f["commands"], f["ok"],
+            "the lock file of newpolicy.sh can be removed while a run holds it: " + f["detail"])
+
     # ---- R19.c
     hs_calls = [c for c in cmds if c.words and c.words[0] == "handle_success"]
     add("R19.c", "single-call", "bin/newpolicy.sh", "handle_success is called %d time(s)" % len(hs_calls), len(hs_calls) == 1, "")
@@ -586,12 +592,15 @@ def finish(dump=""):
 
 DESTRUCTIVE = {"rm", "rmdir", "unlink", "mv", "shred", "truncate"}
 
-def lockdir_facts():
+def lockdir_facts(target="lockdir"):
     """For every shell script under bin/: the commands that remove or rename entries of a
     directory named `lock` (the per-device lock files of drc / do-approve).  Variables are
     replaced by every value the script assigns to them (assignments and `for V in words`),
     to a fixed point; a path argument with a component `lock` makes the command a hit.
-    Output: JSON list of {script, ok, commands, detail} on stdout; nothing is executed."""
+    target "policylock": commands that can remove policies/LOCK instead: a direct path ending
+    in policies/LOCK, or a destructive find that starts at the policies directory, reaches
+    depth 1 and does not exclude the name LOCK.
+    Output: JSON list of {script, ok, commands, detail}; nothing is executed."""
     out = []
     bindir = os.path.join(REPO, "bin")
     for fn in sorted(os.listdir(bindir)):
@@ -647,15 +656,33 @@ def lockdir_facts():
                 destructive = True
             if not destructive:
                 continue
+            allargs = c.words[1:]
+            excludes_lock = False
+            mindepth = 0
+            for k, a in enumerate(allargs):
+                if a == "-name" and k + 1 < len(allargs) and allargs[k + 1].strip("\"'") == "LOCK" and k > 0 and allargs[k - 1] in ("!", "-not"):
+                    excludes_lock = True
+                if a == "-mindepth" and k + 1 < len(allargs) and allargs[k + 1].isdigit():
+                    mindepth = int(allargs[k + 1])
             for a in args:
                 if a.startswith("-"):
                     continue
                 for e in expand(a.strip("\"'")):
-                    if re.search(r"(^|/)lock(/|$)", e):
+                    if target == "lockdir":
+                        hit = re.search(r"(^|/)lock(/|$)", e) is not None
+                    else:
+                        hit = re.search(r"(^|/)policies/LOCK$", e) is not None or e in ("$LOCK", "LOCK")
+                        if name == "find" and re.search(r"(^|/)policies/?$", e) and not excludes_lock and mindepth <= 1:
+                            hit = True
+                        if name != "find" and re.search(r"(^|/)policies/?$", e) and any(x in ("-r", "-rf", "-fr", "-R") for x in allargs):
+                            hit = True
+                    if hit:
                         hits.append("%s: `%s` (argument %s can be %s)" % (c.func, c.text, a, e))
                         break
         out.append({"script": fn, "ok": not hits, "commands": len(cmds), "detail": "; ".join(sorted(set(hits)))})
-    print(json.dumps(out))
+    if target == "lockdir":
+        print(json.dumps(out))
+    return out
 
 if __name__ == "__main__":
     if len(sys.argv) > 1 and sys.argv[1] == "--lockdir-facts":
